@@ -28,6 +28,7 @@ type c13Case struct {
 	Redirect string      `json:"redirect,omitempty"`
 	Then     string      `json:"then,omitempty"`
 	Decline  int         `json:"decline,omitempty"`
+	Cancel   bool        `json:"cancel,omitempty"`
 	BodyLen  int         `json:"body_len,omitempty"`
 	Chunked  bool        `json:"chunked,omitempty"`
 	N        int         `json:"n,omitempty"`
@@ -174,7 +175,28 @@ func c13NonShim(rng *rand.Rand, n int, seed int64) []c13Case {
 			body = []byte("ws://evil.example/looks/like/an/open/body")
 		}
 		c.B64 = base64.StdEncoding.EncodeToString(body)
+		c.Cancel = i%4 == 2 // the client abandons every fourth request while the normal path is serving it
 		out = append(out, c)
+	}
+	// browsers' navigation requests: Accept mentioning html (any case, any q) with every kind of Accept-Encoding
+	k := 0
+	for _, accept := range []string{"text/html", "text/HTML;q=0.1, */*", "application/xhtml+xml,text/html;q=0.9,*/*;q=0.8", "TEXT/HTML"} {
+		for _, ae := range []string{"br", "zstd", "identity", "gzip, deflate, br", "gzip;q=1.0, *;q=0"} {
+			for _, method := range []string{"GET", "POST"} {
+				if n < 1000 && (k/2)%3 != 0 && !(accept == "text/HTML;q=0.1, */*") { // quick: a third of the product plus the odd-case row
+					k++
+					continue
+				}
+				body := ""
+				if method == "POST" {
+					body = "a=b"
+				}
+				out = append(out, c13Case{ID: fmt.Sprintf("nh%d-%d", seed, k), Kind: "nonshim", Class: "html-navigation", ShimPath: []string{"shim", "ws-shim/v1"}[k%2], Target: []string{"/", "/lab/tree/x.ipynb", "/index.html?a=1"}[k%3],
+					Method: method, Status: 200, Host: "client.example", Seed: rng.Int63(), Headers: [][2]string{{"Accept", accept}, {"Accept-Encoding", ae}, {"Accept-Language", "en"}, {"User-Agent", "Mozilla/5.0"}},
+					B64: base64.StdEncoding.EncodeToString([]byte(body))})
+				k++
+			}
+		}
 	}
 	return out
 }
@@ -182,7 +204,7 @@ func c13NonShim(rng *rand.Rand, n int, seed int64) []c13Case {
 // C13 — the websocket shim only ever connects to the configured backend.
 func C13(r *core.Run) {
 	r.Level = "exploration"
-	r.SetRule("websockets.Proxy driven in-process (race-built worker, agent's GODEBUG defaults, real gorilla backend, one case at a time per process); observation: every (network,address) handed to websocket.DefaultDialer.NetDialContext, plus request URI and Host the backend's websocket server received. Open bodies: an enumerated corpus of URL syntax classes (absolute ws/wss/http/other, scheme-relative, path-only, opaque, empty, userinfo, IP literals, ports, percent-encoded hosts, back-slashes, odd slashes, fragments, CR/LF, very long, unicode hosts, whitespace, query tricks), seeded mutations (splice, insert special, delete, duplicate) and random byte / ASCII strings, each with rewriteWebsocketHost on and off; plus pass-through uploads of 8 MiB+1 to 20 MiB (Content-Length and chunked) compared byte for byte at the wrapped handler; plus whole-session histories (open with an absolute / scheme-relative / IP-literal / odd-port URL, the backend drops the websocket abruptly or gracefully, the client goes on with data, poll, data, close, data - the dial observer stays on for all of it); plus bursts of 16 goroutines opening concurrently on one handler, every body naming its own foreign host, port, path and query (dial addresses and per-connection request URI checked; race detector on); plus a backend that turns the first handshake of an open down (403, 404 or a 200 page) and would accept a second one, with Host and request URI of every handshake request it receives judged; plus a backend that answers the handshake with a redirect: statuses {301,302,307,308} x Location {absolute foreign ws, absolute foreign http, scheme-relative foreign, path-only, absolute to the backend, request path plus a trailing slash} x 8 URL shapes incl. paths beginning with //host. Pass-through: requests for ordinary paths and near misses of the shim prefix (two shim paths), random methods/headers/bodies/scripted responses; class = URL syntax class | near-miss class")
+	r.SetRule("websockets.Proxy driven in-process (race-built worker, agent's GODEBUG defaults, real gorilla backend, one case at a time per process); observation: every (network,address) handed to websocket.DefaultDialer.NetDialContext, plus request URI and Host the backend's websocket server received. Open bodies: an enumerated corpus of URL syntax classes (absolute ws/wss/http/other, scheme-relative, path-only, opaque, empty, userinfo, IP literals, ports, percent-encoded hosts, back-slashes, odd slashes, fragments, CR/LF, very long, unicode hosts, whitespace, query tricks), seeded mutations (splice, insert special, delete, duplicate) and random byte / ASCII strings, each with rewriteWebsocketHost on and off; every pass-through request carries its own context (a value the wrapped handler must see; every fourth is cancelled by the client while the wrapped handler runs, which must see ctx.Done() within 5 s); browser navigation requests (Accept mentioning html in any case and q-value x Accept-Encoding br, zstd, identity, gzip/deflate/br, q-values x GET/POST) compared header for header; plus pass-through uploads of 8 MiB+1 to 20 MiB (Content-Length and chunked) compared byte for byte at the wrapped handler; plus whole-session histories (open with an absolute / scheme-relative / IP-literal / odd-port URL, the backend drops the websocket abruptly or gracefully, the client goes on with data, poll, data, close, data - the dial observer stays on for all of it); plus bursts of 16 goroutines opening concurrently on one handler, every body naming its own foreign host, port, path and query (dial addresses and per-connection request URI checked; race detector on); plus a backend that turns the first handshake of an open down (403, 404 or a 200 page) and would accept a second one, with Host and request URI of every handshake request it receives judged; plus a backend that answers the handshake with a redirect: statuses {301,302,307,308} x Location {absolute foreign ws, absolute foreign http, scheme-relative foreign, path-only, absolute to the backend, request path plus a trailing slash} x 8 URL shapes incl. paths beginning with //host. Pass-through: requests for ordinary paths and near misses of the shim prefix (two shim paths), random methods/headers/bodies/scripted responses; class = URL syntax class | near-miss class")
 	r.Assume("expected request URI = net/url's escaped path (\"/\" prefixed when missing) + \"?\" + raw query of the supplied URL; how a percent-encoded spelling of the prefix (/shim%2Fopen, /%73him/open) is routed is left to ServeMux and only recorded; paths ServeMux redirects by itself are not generated; the syscall-level (strace) sample of DESIGN.md is not run: the dial hook sees every address before the socket is created")
 	bin := r.MustBuild(r.BuildWorker())
 	godebug := "GODEBUG=" + shimGodebug(r)
